@@ -92,6 +92,9 @@ def generate(rng, tier):
         elif k < 0.58 and dirs:
             d = rng.choice(dirs)
             muts.append({"op": "rmdir", "path": d, "fault": "remove_empty_dir"})
+            if rng.random() < 0.3:
+                # ... and a regular file appears under exactly the same name
+                muts.append({"op": "write", "path": d, "c": gen.unique_content(rng), "fault": "file_replaces_directory"})
         elif k < 0.8:
             parent = rng.choice([""] + dirs + ["brandnew", "brandnew/deeper"])
             name = rng.choice(["added.bin", "new clip.mov", "ünï.new", "a&b.new"])
@@ -164,7 +167,9 @@ def execute(sc, ctx):
     cur_files, cur_dirs = observe.walk_nonignored(w.root, ig)
     content = sorted(f for f in sealed_files if f in cur_files and observe.read_bytes(f) != sealed_bytes[f])
     removed_f = sorted(set(sealed_files) - set(cur_files))
-    removed_d = sorted(set(sealed_dirs) - set(cur_dirs))
+    removed_d = sorted(set(sealed_dirs) - set(cur_dirs) - set(cur_files))  # a directory replaced by a file counts as 'added'
+    if set(sealed_dirs) & set(cur_files):
+        ctx.probe("directory_replaced_by_file")
     added = sorted(set(cur_files) - set(sealed_files))
     rel = lambda p: os.path.relpath(p, w.root)
     classes = tuple(k for k, v in (("content", content), ("removed-file", removed_f), ("removed-dir", removed_d), ("added", added)) if v)
